@@ -7,7 +7,7 @@ ENGINES = [
     {"name": "E3", "path": "mc/engine/choice.py + mc/instr/setorder.py", "kind_free_text": "stateless deviation-bounded choice exploration: the iteration order of every set created in antiSMASH code (AST import hook) is a choice; default run, then every single deviation, pairs, ...",
      "serves_properties": ["C13", "C17", "C18"]},
     {"name": "E1", "path": "mc/engine/core.py", "kind_free_text": "bounded exhaustive input enumeration of the real functions against set-of-bases / truth-table reference models, sharded over processes",
-     "serves_properties": ["C01", "C02", "C03", "C04", "C05", "C07", "C08", "C09", "C14", "C15", "C16", "C19"]},
+     "serves_properties": ["C01", "C02", "C03", "C04", "C05", "C07", "C08", "C09", "C14", "C15", "C16", "C19", "C10"]},
 ]
 NOT_APPLICABLE = {}
 CHECKS = {
@@ -124,4 +124,11 @@ CHECKS = {
                      "equals the model's. The returned list must equal the sequential result in argument order for every schedule; a task raising at any "
                      "position or hanging past the timeout must raise in the caller. Annotated records are compared across pickle and real pool round trips.",
                 note="Model/implementation conformance is enforced at every step (divergence = harness error after a 60 s watchdog, never a verdict); worker counts 1-4 and 16; deviation bound 2 (quick) / 3 (thorough)."),
+    "C10": dict(engine="E1", level="exploration", ref="DESIGN.md 5/C10",
+                technique="bounded exhaustive enumeration of an annotated-record catalogue built by the real producers; write/read/write fixed point + canonical description equality",
+                text="Every record of the catalogue (topology x 7 gene layouts x 5 rulesets x 6 sideload variants x subsets of 7 extra annotation kinds; "
+                     "763 quick / 9690 thorough) is written to GenBank text and to the results JSON with the real writers, read back with the real readers "
+                     "and written again: the first output must equal the second byte for byte and the canonical description (sequence, topology, every "
+                     "emitted feature with qualifiers, area structure with numbers and cross references) must be unchanged.",
+                note="HMMER look-ups replaced by fixed hit tables, all other producer code is real; strand-less area locations are identified with forward ones (GenBank cannot distinguish); one open finding (C10-F1)."),
 }
